@@ -26,6 +26,7 @@ root-cause bucket signature.
 """
 import enum
 import struct
+import sys
 import types
 
 import numpy as np
@@ -55,6 +56,10 @@ def take(obj, _stack=None):
     if kind is np.float64:
         return ('npy', '<f8', obj.tobytes())
     if kind is np.ndarray and obj.dtype != object:
+        if obj.dtype.byteorder not in ('=', '|', '<' if sys.byteorder == 'little' else '>'):
+            # the numbers, not their byte order in memory (numpy itself may change the latter,
+            # e.g. when pickling arrays that share a dtype object)
+            obj = obj.astype(obj.dtype.newbyteorder('='))
         return ('arr', obj.dtype.str, obj.shape, obj.tobytes(), None)
     if obj is None or isinstance(obj, (bool, str, bytes)):
         return ('val', type(obj).__name__, obj)
@@ -73,6 +78,8 @@ def take(obj, _stack=None):
         arr, mask = _array(obj)
         if arr.dtype == object:
             return ('oarr', arr.shape, tuple(take(x, stack) for x in arr.ravel().tolist()), mask)
+        if arr.dtype.byteorder not in ('=', '|', '<' if sys.byteorder == 'little' else '>'):
+            arr = arr.astype(arr.dtype.newbyteorder('='))
         return ('arr', arr.dtype.str, arr.shape, arr.tobytes(), mask)
     if isinstance(obj, (types.FunctionType, types.BuiltinFunctionType, types.MethodType, type,
                         types.ModuleType)):
